@@ -273,29 +273,36 @@ impl Slaac {
 
     /// Get the next time the SLAAC state must be polled for updates.
     pub(crate) fn poll_at(&self, now: Instant) -> Option<Instant> {
-        match self.phase {
+        // The lifetimes of prefixes and routes run in every phase: an advertisement may
+        // have been received before the first solicitation was sent.
+        let prefix_at = self.prefix.values().filter_map(|prefix_info| {
+            if prefix_info.is_valid(now) {
+                Some(prefix_info.valid_until)
+            } else {
+                None
+            }
+        });
+        let routes_at = self.routes.iter().filter_map(|r| {
+            if r.is_valid(now) {
+                Some(r.valid_until)
+            } else {
+                None
+            }
+        });
+        let lifetimes_at = prefix_at.chain(routes_at).min();
+
+        let solicit_at = match self.phase {
             // Once all router solicitations have been sent nothing more happens at
             // `retry_rs_at`; reporting it would leave a deadline in the past for ever.
             Phase::Discovering | Phase::Start if self.num_solicitations == 0 => None,
             Phase::Discovering | Phase::Start => Some(self.retry_rs_at),
-            Phase::Maintaining => {
-                let prefix_at = self.prefix.values().filter_map(|prefix_info| {
-                    if prefix_info.is_valid(now) {
-                        Some(prefix_info.valid_until)
-                    } else {
-                        None
-                    }
-                });
-                let routes_at = self.routes.iter().filter_map(|r| {
-                    if r.is_valid(now) {
-                        Some(r.valid_until)
-                    } else {
-                        None
-                    }
-                });
-                prefix_at.chain(routes_at).min()
-            }
             _ => None,
+        };
+
+        match (solicit_at, lifetimes_at) {
+            (Some(a), Some(b)) => Some(a.min(b)),
+            (a, None) => a,
+            (None, b) => b,
         }
     }
 }
